@@ -484,6 +484,9 @@ func TestVerifC07Concurrent(t *testing.T) {
 		c07cOverlap(rep, base)
 	}
 	if !rep.Violated() {
+		c07cReaders(rep, base)
+	}
+	if !rep.Violated() {
 		if n := rep.EventCount("probes"); n < sessions*rounds/2 {
 			rep.Inconcl(fmt.Sprintf("only %d probes were judged", n))
 		}
